@@ -14,14 +14,140 @@ ROOTS = [TAKE, TAKE_FROM, TAKE_SPLIT, DISPLAY, CTX]
 ASSUMPTIONS = [
     "one inductive step of Input::slice (through take / take_from / take_split) from an arbitrary state: line, column, offset and the context fields are free usize variables (bounded only so that the step does not overflow), the remaining text has <= 4 (thorough 6) characters, each either a symbolic ASCII character or a concrete multi-byte character, the cut position ranges over every byte index; a sequence of slices is covered by induction",
     "renderings: ReportData numbers are free variables (context_start_line < 1000 to bound the digit-count forks of ilog10); the text handed to contextualize is a concrete 3-line sample with every (context_start_offset <= offset) pair on it",
-    "which offset nom's error selection picks for a malformed text (ErrorTree::Alt -> first alternative) is the lexer and outside: the 'first malformed assignment' half of the property is checked only on concrete native samples (differential job)",
+    "where a corrupted token is reported (jobs lexpos-*): lexer::asn_spec - nom combinators, the ErrorTree merging (or / append, whose alternative order depends on VecDeque capacities, modelled after RawVec's growth policy) and the conversion to ReportData - runs from real MIR (dump of /verif/pipe-harness) on 2 fixed modules (LF and CRLF, 3 assignments each, a comment) with one junk character, symbolic over {% ~ ` $ ? # backslash}, inserted after or replacing the first character after every white-space gap outside comments: the result must be Err with an offset inside [first token of the malformed unit, junk character] and line = 1 + line breaks before the offset; every MIR run is compared with the native compiler's report for the solver's character (differential validation of the error-tree model)",
 ]
 NL = 10
 
 
 def jobs(tier, seed):
     L = 4 if tier == 'quick' else 6
-    return [f"slice-{k}" for k in range(0, L + 1)] + ['display', 'contextualize', 'marked', 'native']
+    nl = 8 if tier == 'quick' else 16
+    return [f"slice-{k}" for k in range(0, L + 1)] + ['display', 'contextualize', 'marked', 'native'] + [f"lexpos-{m}-{k}of{nl}" for m in range(len(POS_MODULES)) for k in range(nl)]
+
+
+# ---- whole lexer: where is a corrupted token reported? ---------------------------------------------------------------
+POS_MODULES = [
+    "M DEFINITIONS AUTOMATIC TAGS ::= BEGIN\nA ::= SEQUENCE { a INTEGER (0..5) OPTIONAL, b BOOLEAN }\nB ::= CHOICE { x A, y NULL }\nv INTEGER ::= 5\nEND",
+    "M DEFINITIONS ::= BEGIN\r\nE ::= ENUMERATED { p(1), q, ... } -- c\r\nL ::= SEQUENCE (SIZE (1..4)) OF E\r\ns UTF8String ::= \"x\"\r\nEND",
+]
+JUNK = [37, 126, 96, 36, 63, 35, 92]      # % ~ ` $ ? # \ : characters that start no ASN.1 lexical item
+ASN_SPEC = 'rasn_compiler::lexer::asn_spec'
+
+
+def prepare():
+    from mirsym import pipe
+    pipe.dump()
+
+
+def unit_starts(mod):
+    """offsets of the first token of the module header and of every top-level assignment"""
+    import re
+    return [0] + [m.start() for m in re.finditer(r'(?m)^[A-Za-z][\w-]* (::=|[A-Z])', mod) if m.start() > 0 and not mod[m.start():].startswith('END')]
+
+
+def job_lexpos(prog, chk, mi, k, n, tier):
+    import re
+    fn = prog.find(ASN_SPEC)
+    f = prog.inst[fn]
+    unit_ty = f['locals'][1]
+    mod = POS_MODULES[mi]
+    starts = unit_starts(mod)
+    chk.ex.max_path_steps = 8000000
+    runner = native.Runner()
+    # gaps inside a comment are not token boundaries (junk there is comment text)
+    positions = [m.start() for m in re.finditer(r' ', mod) if '--' not in mod[:m.start() + 1].split('\n')[-1]]
+
+    def mk_unit(ex, chars):
+        vals = []
+        for fl in prog.ty(unit_ty)['adt']['variants'][0]['fields']:
+            if fl['name'] == 'path':
+                vals.append(models.none(ex, fl['ty']))
+            else:
+                cow = fl['ty']
+                vals.append(Adt(cow, prog.variant_index(cow, 'Borrowed'), [StrRef(chars)]))
+        return Adt(unit_ty, 0, vals)
+
+    def outcome(ex, res):
+        ir = IR(ex)
+        r = ir.f(res)
+        if ir.vn(r) == 'Ok':
+            return ('ok',)
+        le = ir.f(r.fields[0])
+        kind = ir.f(ir.get(le, 'kind'))
+        if ir.vn(kind) != 'MatchingError':
+            return ('err-other', ir.vn(kind))
+        rd = ir.f(kind.fields[0])
+        return ('err', ir.get(rd, 'offset'), ir.get(rd, 'line'), ir.get(rd, 'column'))
+    try:
+        for kind in ('insert', 'replace'):
+            for p in positions[k::n]:
+                c = z3.BitVec('j', 32)
+                if kind == 'insert':
+                    chars = [ord(x) for x in mod[:p + 1]] + [c, 32] + [ord(x) for x in mod[p + 1:]]
+                    jpos = p + 1
+                else:
+                    # the first character of the token after the gap is replaced
+                    chars = [ord(x) for x in mod[:p + 1]] + [c] + [ord(x) for x in mod[p + 2:]]
+                    jpos = p + 1
+                unit = max(s0 for s0 in starts if s0 <= jpos)
+                sig = f"C17 lexer position module {mi} {kind} in unit@{unit}"
+
+                def run(ex, chars=chars):
+                    ex.assume(z3.Or([c == j for j in JUNK]))
+                    return outcome(ex, ex.call(fn, [mk_unit(ex, chars)]))
+                for r in chk.explore(run):
+                    if r.kind == 'panic':
+                        chk.violation(sig + ' panic', f"lexer panics on a corrupted token: {r.value[0]}", {'kind': 'text', 'text': mod})
+                        continue
+                    if r.kind != 'ok':
+                        continue
+                    m = chk.model_of(r.pc)
+                    jc = chr(model_int(m, c, False)) if m is not None else '%'
+                    text = ''.join(chr(x) if isinstance(x, int) else jc for x in chars)
+                    chk.res.obligations += 1
+                    o = r.value
+                    probs = []
+                    if o[0] != 'err':
+                        probs.append(f"corrupted module is not rejected with a position ({o})")
+                    else:
+                        off, line = o[1], o[2]
+                        if not (isinstance(off, int) and isinstance(line, int)):
+                            probs.append('symbolic position')
+                        else:
+                            if not (unit <= off <= jpos):
+                                probs.append(f"reported offset {off} lies outside the malformed unit [{unit}, {jpos}]")
+                            if line != 1 + text[:off].count('\n'):
+                                probs.append(f"reported line {line}, but offset {off} is on line {1 + text[:off].count(chr(10))}")
+                    # the model of the error tree (alternative order depends on VecDeque capacities) is validated against the native compiler
+                    nat = runner.compile(text)
+                    nrep = (nat.get('error') or {}).get('report') if not nat.get('ok') else None
+                    if o[0] == 'err' and nrep is not None and isinstance(o[1], int):
+                        if nrep['offset'] == o[1] and nrep['line'] == o[2]:
+                            chk.res.diff_ok += 1
+                        else:
+                            chk.res.diff_fail.append(f"{sig} at {jpos}: MIR run reports offset {o[1]} line {o[2]}, native reports {nrep['offset']} / {nrep['line']}")
+                    if not probs:
+                        chk.res.discharged += 1
+                        continue
+                    nprobs = []
+                    if nat.get('ok'):
+                        nprobs.append('accepted')
+                    elif nrep is None:
+                        nprobs.append('no position')
+                    else:
+                        if not (unit <= nrep['offset'] <= jpos):
+                            nprobs.append('outside')
+                        if nrep['line'] != 1 + text[:nrep['offset']].count('\n'):
+                            nprobs.append('line')
+                    if nprobs:
+                        chk.violation(sig, f"{'; '.join(probs)} (junk character {jc!r} at offset {jpos}): {text!r}", {'kind': 'text', 'text': text})
+                    else:
+                        chk.res.inconclusive.append(f"not reproduced natively: {sig} at {jpos}: {probs}")
+                chk.witness('corrupted token explored', True)
+        chk.sample({'module': mi, 'positions': len(positions[k::n]), 'junk': ''.join(map(chr, JUNK))})
+    finally:
+        runner.close()
+    chk.res.bounds = {'modules': len(POS_MODULES), 'corruption': 'one junk character (symbolic over 7) inserted after / replacing the first character after every white-space gap'}
 
 
 def input_value(ex, prog, input_ty, chars, line, column, offset, csl, cso, with_file=False):
@@ -373,6 +499,15 @@ def job_native(prog, chk, tier, seed):
 
 
 def run_job(prog, job, tier, seed):
+    if job.startswith('lexpos-'):
+        from mirsym import pipe
+        from mirsym.harness import program
+        pprog = program(pipe.dump())
+        chk = Checker(pprog, job)
+        _, mi, kn = job.split('-')
+        k, n = kn.split('of')
+        job_lexpos(pprog, chk, int(mi), int(k), int(n), tier)
+        return chk.res
     chk = Checker(prog, job)
     if job.startswith('slice-'):
         job_slice(prog, chk, int(job[6:]), tier)
